@@ -32,7 +32,7 @@ OTHER_ANGLES = [17.0, 33.3, 45.0, 123.0, 200.5, 271.0, 359.0]
 
 def build(images, angles, pf, k, kde=0.5):
     from quantem.imaging.drift import DriftCorrection
-    dc = DriftCorrection.from_data([im.copy() for im in images], scan_direction_degrees=list(angles))
+    dc = DriftCorrection.from_data(list(images), scan_direction_degrees=list(angles))      # (the caller's arrays themselves: see inputs-modified)
     dc.preprocess(pad_fraction=pf, pad_value="median", kde_sigma=kde, number_knots=k,
                   show_merged=False, show_images=False)
     return dc
@@ -61,6 +61,7 @@ def run_case(arg):
     try:
         with contextlib.redirect_stdout(io.StringIO()):
             ref = None
+            images0 = [im.copy() for im in images]
             for k in (1, 2, 3, 4):
                 dc = build(images, [theta] * nimg, pf, k, kde=[0.5, 1.0, 0.25][idx % 3])
                 if tuple(dc.shape[1:]) != (case["h"], case["w"]):
@@ -80,6 +81,8 @@ def run_case(arg):
                 else:
                     continue
                 break
+            if not all(np.array_equal(a, b) for a, b in zip(images, images0)):
+                bad("C15:inputs-modified", "the caller's images were modified")
             # preprocess is a function of its arguments and the current scan directions: the SAME object, first
             # preprocessed with another direction / pad fraction / knot count, must give the exact placement again
             other = [35.0, (theta + 90) % 360, 200.5][idx % 3]
